@@ -575,10 +575,12 @@ class C07(Check):
         return failures
 
     # ------------------------------------------------------------------ directed real runs
-    def _star(self, wntr, gl, juncs, H=40.0, duration=0):
+    def _star(self, wntr, gl, juncs, H=40.0, duration=0, head_mults=None):
         """reservoir R (head H) -- short wide pipe --> each junction; juncs: list of dict(own, D, elev)"""
         wn = wntr.network.WaterNetworkModel()
-        wn.add_reservoir("R", base_head=H)
+        if head_mults:
+            wn.add_pattern("hp", list(head_mults))
+        wn.add_reservoir("R", base_head=H, head_pattern="hp" if head_mults else None)
         for k, jn in enumerate(juncs):
             nm = "J%d" % k
             wn.add_junction(nm, base_demand=jn["D"], elevation=jn["elev"])
@@ -679,6 +681,69 @@ class C07(Check):
                         obs.append((nm, int(t), p, d, juncs[k]["D"], cur[0], cur[1], cur[2], gl))
                         keys.append("pdd-param-control-ignored:" + attr if (k == 0 and t >= 3600) else "pdd-sim-point")
                         extra.append({"directed": "param-control", "attr": attr, "value": val, "glob": gl, "own": own})
+        # (c) a CONDITIONAL (post-solve) control changes a PDD attribute: the reservoir head rises at 1 h, J1's pressure passes a
+        # threshold, the control fires after that solve and the step must be solved again: the very step in which the control
+        # fires is reported on the curve of the NEW value
+        from wntr.network.controls import ValueCondition
+        for attr, val in [("required_pressure", 26.0), ("pressure_exponent", 1.0), ("minimum_pressure", 4.0), ("required_pressure", 11.5)]:
+            for own in ((None, None, None), (0.0, 15.0, 0.7)):
+                pmin, pnom, e = eff(own, gl)
+                tp = pmin + 0.3 * (pnom - pmin)
+                juncs = [{"own": own, "D": 0.02, "elev": H - tp}, {"own": (None, None, None), "D": 0.01, "elev": H - 6.0}]
+                wn = self._star(wntr, gl, juncs, H, duration=3 * 3600, head_mults=[1.0, 1.1, 1.1])
+                thr = 8.0  # J1: 6 m at t = 0, about 10 m from 1 h on
+                wn.add_control("cond", Control(ValueCondition(wn.get_node("J1"), "pressure", ">", thr), ControlAction(wn.get_node("J0"), attr, val)))
+                try:
+                    res = wntr.sim.WNTRSimulator(wn).run_sim()
+                except Exception as ex:
+                    ctx.count("directed_sim_error:" + type(ex).__name__)
+                    continue
+                ctx.count("directed_sim_conditional_control:" + attr)
+                new = {"minimum_pressure": (val, pnom, e), "required_pressure": (pmin, val, e), "pressure_exponent": (pmin, pnom, val)}[attr]
+                fired = False
+                for t in res.node["pressure"].index:
+                    fired = fired or float(res.node["pressure"].loc[t, "J1"]) > thr
+                    for k, nm in enumerate(("J0", "J1")):
+                        cur = (new if fired else (pmin, pnom, e)) if k == 0 else gl
+                        p = float(res.node["pressure"].loc[t, nm])
+                        d = float(res.node["demand"].loc[t, nm])
+                        reqs.append("pddcurve %s %s %s %s" % (fbits(cur[0]), fbits(cur[1]), fbits(cur[2]), fbits(p)))
+                        obs.append((nm, int(t), p, d, juncs[k]["D"], cur[0], cur[1], cur[2], gl))
+                        keys.append("pdd-conditional-control-lag:" + attr if (k == 0 and fired) else "pdd-sim-point")
+                        extra.append({"directed": "conditional-control", "attr": attr, "value": val, "glob": gl, "own": own, "fired": fired})
+        # (d) a control sets a value the model build REFUSES (Preq <= smoothing delta, Preq <= Pmin): either run_sim raises, or
+        # every later reported point lies on the curve of the REPORTED attributes -- for a refused value there is none
+        for own in ((None, None, None), (0.0, 15.0, 0.7)):
+            pmin, pnom, e = eff(own, gl)
+            for attr, val in [("required_pressure", 0.04), ("required_pressure", 0.05), ("required_pressure", pmin), ("required_pressure", pmin - 1.0),
+                              ("minimum_pressure", pnom), ("minimum_pressure", pnom + 2.0)]:
+                tp = pmin + 0.45 * (pnom - pmin)
+                juncs = [{"own": own, "D": 0.02, "elev": H - tp}, {"own": (None, None, None), "D": 0.01, "elev": H - 6.0}]
+                wn = self._star(wntr, gl, juncs, H, duration=3 * 3600)
+                wn.add_control("chg", Control(SimTimeCondition(wn, "=", 3600), ControlAction(wn.get_node("J0"), attr, val)))
+                try:
+                    import warnings
+                    with warnings.catch_warnings():
+                        warnings.simplefilter("ignore")
+                        res = wntr.sim.WNTRSimulator(wn).run_sim()
+                except Exception as ex:
+                    ctx.count("refused_value_control:raised:" + type(ex).__name__)
+                    ctx.case(("refused-value-control", attr, "raised"), nontrivial=True)
+                    continue
+                late = [int(t) for t in res.node["pressure"].index if t >= 3600]
+                ctx.case(("refused-value-control", attr, "continued" if late else "stopped"), nontrivial=True)
+                if late:
+                    j0 = wn.get_node("J0")
+                    t = late[0]
+                    failures.append(Failure("pdd-refused-value-half-applied:" + attr,
+                                            "a control set %s of J0 to %r at 1 h (refused by the model build: Pmin=%r Preq=%r now); run_sim neither raised nor "
+                                            "followed it: at t=%d it reports pressure %r demand %r for a junction whose reported attributes admit no curve"
+                                            % (attr, val, j0.minimum_pressure if j0.minimum_pressure is not None else gl[0],
+                                               j0.required_pressure if j0.required_pressure is not None else gl[1], t,
+                                               float(res.node["pressure"].loc[t, "J0"]), float(res.node["demand"].loc[t, "J0"])),
+                                            {"directed": "refused-value-control", "attr": attr, "value": val, "glob": gl, "own": own}))
+                else:
+                    ctx.count("refused_value_control:stopped")
         return failures + self._judge_sim_points(ctx, reqs, obs, key=keys, extra=extra)
 
     # ------------------------------------------------------------------ correspondence + oracle
